@@ -1,15 +1,21 @@
 #!/bin/sh
-# development aid: apply each mutant patch of /tmp/wt_<pid> to /repo, run the quick check, undo.
-# usage: tools/try_mutants.sh C04 C05 ...
+# development aid: run the quick check of each property against every seeded change of that property,
+# applied to a scratch worktree of /repo (RMK_REPO points the harness at it; /repo itself is never touched).
+# usage: tools/try_mutants.sh C04 C05 ...      (no arguments: all seeded changes)
 cd /verif || exit 2
+wt=/tmp/rmk_mut_wt
+[ $# -eq 0 ] && set -- $(ls seeded | sed 's/[AB]$//' | sort -u)
+git -C /repo worktree remove --force $wt 2>/dev/null
+git -C /repo worktree add -q --detach $wt HEAD || exit 2
 for pid in "$@"; do
   for m in A B; do
-    f=/tmp/wt_$pid/mutant_$m.patch
-    [ -f "$f" ] || f=/verif/seeded/$pid$m/patch.diff
+    f=/verif/seeded/$pid$m/patch.diff
     [ -f "$f" ] || continue
-    if ! git -C /repo apply "$f" 2>/dev/null; then echo "$pid $m: patch does not apply"; continue; fi
-    out=$(RMK_SKIP_PROOF=1 ./check $pid quick 2>&1 | tail -3 | tr '\n' ' ')
-    git -C /repo checkout -- .
-    echo "$pid $m: $out"
+    git -C $wt checkout -q -- . 
+    if ! git -C $wt apply "$f" 2>/dev/null; then echo "$pid$m: patch does not apply"; continue; fi
+    out=$(RMK_REPO=$wt ${EXTRA_ENV:-} ./check $pid quick 2>&1 | tail -3 | tr '\n' ' ')
+    case "$out" in *VIOLATION*no-failing-input-found*) r="CAUGHT(no-input)";; *VIOLATION*) r=CAUGHT;; *) r=MISSED;; esac
+    echo "$pid$m $r :: $out"
   done
 done
+git -C /repo worktree remove --force $wt
